@@ -7,7 +7,7 @@ PROPS = {
                      "check_one_checkfile / main (what --check counts and what the exit status is), over a ghost stdout "
                      "log, a file-system function and a line-source model; hash_path's real body is verified against a "
                      "model of blake3::Hasher whose clauses are the contracts C02/C03/C11 verify on the crate; "
-                     "write_raw_output / Args::parse are assumed contracts (partial claim: see level_note)",
+                     "write_raw_output / clap / read_key_from_stdin are assumed contracts (partial claim: see level_note)",
         "level_text": "unbounded deductive proof (Verus/z3) for the FUNCTION-LEVEL half of the statement, every line, path, "
                       "checkfile length and number of inputs: write_hex_output appends the lowercase hex of exactly "
                       "S[pos..pos+length] of the reader it is given (hash_one_input: of the reader hash_path positioned at "
@@ -23,7 +23,7 @@ PROPS = {
         "level_note": "PARTIAL: the process-level half of C12 (clap's argument grammar and conflicts, reading the key from "
                       "stdin, the real stdout / stderr, File::open / BufReader / stdin selection in check_one_checkfile, "
                       "rayon_core's pool, --raw output) is NOT under contract: "
-                      "write_raw_output and Args::parse are ASSUMED contracts, hash_path is verified over ASSUMED models of "
+                      "write_raw_output, clap (vf_parse_inner) and read_key_from_stdin are ASSUMED contracts, hash_path and Args::parse are verified over ASSUMED models of "
                       "blake3::Hasher / File / stdin, the reader-selection prologue of "
                       "check_one_checkfile is replaced by a line-source model (its loop is the real code), the closure "
                       "passed to ThreadPool::install is verified as main's own block and process::exit(c) as `return` of "
@@ -33,7 +33,7 @@ PROPS = {
                       "models of C13",
         "units": {"quick": [v("b3sum")], "thorough": [s("C12")]},
         "cone": [r"^crate::(check_one_line|check_one_checkfile|main|write_hex_output|hash_one_input|hash_path|"
-                 r"write_raw_output|Args::(parse|quiet|seek|check|num_threads|len|raw|no_names|no_mmap|keyed))$"],
+                 r"write_raw_output|read_key_from_stdin|Args::(parse|quiet|seek|check|num_threads|len|raw|no_names|no_mmap|keyed))$"],
         "explanation": "Same unit as C13 (assembled on every run from the real b3sum/src/main.rs). New for C12: "
                        "check_one_line, check_one_checkfile and main are extracted and verified. The file system is a "
                        "function of the path during one run: sp_fs_stream(path) = Some(stream id) | None, fixed by the "
@@ -49,8 +49,9 @@ PROPS = {
                        "printing half (write_hex_output's loop invariant over the XOF stream, hash_one_input's line) is "
                        "shared with C13.",
         "uncovered": [
-            "argument parsing (clap derive: conflicts / requires between --check, --raw, --keyed ...; Args::parse's body: "
-            "default `-`, the --raw single-file rule, selection of the base hasher) - assumed contract only",
+            "clap's derive-generated parser (the option grammar, conflicts / requires between --check, --raw, --keyed ...) and "
+            "read_key_from_stdin's body - assumed contracts; Args::parse's own body (default `-`, the --raw single-file rule, "
+            "selection of the base hasher) IS verified",
             "below hash_path: that blake3::Hasher / File / stdin behave as the b3sum-side model says is C02/C03/C10/C11 on the "
             "crate (verified there) plus the OS; the bounded exploration of the thorough tier runs the real binary over "
             "mode / seek / length combinations",
@@ -73,8 +74,13 @@ PROPS = {
             "axiom_fs_fixed (ASSUMED): sp_fs_stream(path) == sp_stream_for(args, path) for the Args of this run - the file "
             "system, stdin's bytes and the options do not change during the run; paths are identified by their lossy "
             "rendering",
-            "Args::parse (ASSUMED): Ok(a) => a is sp_the_args(), at least one file argument, exactly one with --raw; Err => "
-            "sp_env_failed()",
+            "Args::parse (VERIFIED body): Ok(a) => a.inner is what clap returned (sp_the_inner()), a.file_args is the file list "
+            "or [`-`] if it is empty, exactly one input with --raw, the base hasher has absorbed nothing and is in the mode "
+            "the options select (keyed with the 32 stdin bytes / derive-key with the context / hash); Err => the key could "
+            "not be read or --raw was given with several inputs. ASSUMED below it: vf_parse_inner (= clap's derive-generated "
+            "Inner::parse_from(wild::args_os()), incl. `--check conflicts with --raw`), read_key_from_stdin (Ok(k) => k is "
+            "sp_stdin_key()), blake3::Hasher::{new, new_keyed, new_derive_key} (mode = function of nothing / key / context; "
+            "verified on the crate under C01/C02), Vec<PathBuf>::clone (vf_clone_paths), vec![\"-\".into()] (vf_dash_paths)",
             "vf_open_checkfile / VfLineReader::read_line (ASSUMED, replaces the reader-selection prologue of "
             "check_one_checkfile via @subst): Ok(reader over sp_checkfile_lines(path)) / Err iff None; read_line appends "
             "the next line and returns n > 0, or Ok(0) at the end, or Err (=> sp_env_failed())",
